@@ -3,11 +3,38 @@ import os, random
 from vlib import core, sqlfmt, sqlcmp, dbgen
 
 
-def run_cmds(tag, lines, timeout=900, sides=("impl", "model")):
-    """run a list of (id, command) on both sides; returns impl, model dicts"""
-    text = "".join("# %s\n%s\n" % (cid, cmd) for cid, cmd in lines)
-    res = core.run_pair(text, tag, timeout=timeout, sides=sides)
-    return res, core.split_cases(res["impl"][1]), core.split_cases(res["model"][1])
+def run_cmds(tag, lines, timeout=900, sides=("impl", "model"), shards=1):
+    """run a list of (id, command) on both sides; returns impl, model dicts.  With shards > 1 the list is cut
+    into contiguous pieces, each prefixed with the `db` command in force at its start, run side by side."""
+    if shards <= 1 or len(lines) < 4 * shards:
+        text = "".join("# %s\n%s\n" % (cid, cmd) for cid, cmd in lines)
+        res = core.run_pair(text, tag, timeout=timeout, sides=sides)
+        return res, core.split_cases(res["impl"][1]), core.split_cases(res["model"][1])
+    size = (len(lines) + shards - 1) // shards
+    pieces, cur = [], None
+    for n in range(0, len(lines), size):
+        piece = list(lines[n:n + size])
+        if cur is not None and not piece[0][1].startswith("db "):
+            piece.insert(0, ("reopen%d" % n, cur))
+        for cid, cmd in piece:
+            if cmd.startswith("db "):
+                cur = cmd
+        pieces.append(piece)
+    from concurrent.futures import ThreadPoolExecutor
+    def one(a):
+        k, piece = a
+        text = "".join("# %s\n%s\n" % (cid, cmd) for cid, cmd in piece)
+        return core.run_pair(text, "%s-s%d" % (tag, k), timeout=timeout, sides=sides)
+    with ThreadPoolExecutor(max_workers=min(shards, 8)) as ex:
+        rs = list(ex.map(one, enumerate(pieces)))
+    res, impl, model = {}, {}, {}
+    for side in ("impl", "model"):
+        rcs = [r[side][0] for r in rs]
+        res[side] = (next((c for c in rcs if c != 0), 0), "", "".join(r[side][2] for r in rs)[-2000:])
+    for r in rs:
+        impl.update(core.split_cases(r["impl"][1]))
+        model.update(core.split_cases(r["model"][1]))
+    return res, impl, model
 
 
 def full_scans(dbs, tag):
